@@ -53,6 +53,7 @@ func c06(p Params) func() {
 	class := p.Get("class", "prefix")
 	maxLen := p.Int("len", 4)
 	limit := uint32(p.Int("limit", 1024))
+	pending := p.Get("pending", "0") == "1"
 	return func() {
 		begin()
 		vsched.Tag("proto=" + proto + " class=" + class)
@@ -69,6 +70,13 @@ func c06(p Params) func() {
 		sess, st := srv.ServeConn(sc, pf)
 		if !st.OK() {
 			vsched.Failf("ServeConn: %v", st)
+		}
+		// the session under attack may itself have a call waiting for a reply that never comes
+		var pendingCmd erpc.CallCmd
+		if pending {
+			var pr string
+			pendingCmd = sess.AsyncCall("/client/never", "q", &pr, make(chan erpc.CallCmd, 1))
+			vsched.Quiesce()
 		}
 		frames := validFrames(proto, hc)
 		var input []byte
@@ -129,6 +137,14 @@ func c06(p Params) func() {
 			}
 			if consumed > 4096 { // allowance for the socket layer's buffered read-ahead (1 KiB buffer)
 				vsched.Failf("%d bytes were consumed from the connection although the frame announced more than the read limit | %s", consumed, ctxt)
+			}
+		}
+		if pendingCmd != nil {
+			if !world.IsDone(pendingCmd) {
+				vsched.Failf("a call of the session was still waiting after the session's input was exhausted (caller blocked for ever); %s | %s", vsched.BlockedDesc(), ctxt)
+			}
+			if pendingCmd.Status().OK() {
+				vsched.Failf("a call that never got a reply completed with an OK status | %s", ctxt)
 			}
 		}
 		// the session ended cleanly once its input ended
